@@ -12,7 +12,7 @@ import seqmodel as sm
 from common import F
 
 ID = 'C06'
-GEN_SECTIONS = ['GenDedup', 'GenBlock', 'FP_store_events', 'FP_store_ext', 'FP_store_checks', 'FP_get_block',
+GEN_SECTIONS = ['GenDedup', 'GenBlock', 'GenCache', 'FP_store_events', 'FP_store_ext', 'FP_store_checks', 'FP_get_block',
                 'FP_event_lib', 'FP_dedup', 'FP_read_wrapper']
 COQ_TARGETS = ['Props/C06.vo']
 LEVEL = 'proof'
